@@ -228,6 +228,10 @@ impl<'a> Lower<'a> {
                 self.note("R11 assert_eq! -> if !(a == b) { vpanic() } with vpanic requires false");
                 Some(syn::parse_quote!(if !((#a) == (#b)) { vpanic(); }))
             }
+            "panic" | "unreachable" | "unimplemented" | "todo" => {
+                self.note("panic!/unreachable! -> vpanic() with vpanic requires false");
+                Some(syn::parse_quote!(vpanic()))
+            }
             "matches" => {
                 let ts = m.tokens.clone();
                 let parsed: Result<(Expr, syn::Pat, Option<Expr>), _> =
